@@ -755,11 +755,14 @@ def measure_variants():
     return v
 
 
-RULE = ('pairs (a, b) of descriptors of sets / fields / interval products / grids / partitions / weightings / '
+RULE = ('eqhash: pairs (a, b) of descriptors of sets / fields / interval products / grids / partitions / weightings / '
         'tensor, discretized and nested weighted product spaces: a random, b = the same object, an independent '
         'rebuild (also through the other constructor spelling), a one-field mutation at a random depth, or '
         'independent; observed: a == b, b == a (True/False/raises), hash success and hash equality; a case is '
-        'non-trivial when a and b have the same class; distinct by descriptor pair')
+        'non-trivial when a and b have the same class; distinct by descriptor pair. member: (space, space of x) pairs '
+        'built the same way. derived: a random (nested / power / weighted) space and one of astype(16 dtypes), real_space, '
+        'complex_space, pspace[int | slice | list | tuple of int/slice], byaxis[int | slice | list]; result descriptor or '
+        'error class compared exactly; distinct by (space, operation)')
 ASSUMPTIONS = ['coordinates, constants and exponents are dyadic rationals or +-inf, so float comparison is exact; NaN is '
                'outside the model (rejected by IntervalProd/RectGrid/ConstWeighting constructors)',
                'objects are immutable while observed (the hash of an array weighting reads the array bytes)',
@@ -1533,6 +1536,23 @@ def probes(rng, tier):
     return out
 
 
-LEVEL_TEXT = 'in progress'
-LEVEL_NOTE = 'in progress'
-TECHNIQUE = 'Coq proof by structural induction over nested descriptors + in-Coq differential correspondence'
+LEVEL_TEXT = ('Proof: over descriptors of all constructible sets, fields, interval products, grids, partitions, weightings, '
+              'tensor / discretized / arbitrarily nested weighted product spaces (any nesting depth, any list length, real '
+              'coordinates incl. +-inf), Coq proves that == as transcribed from the paired __eq__ methods never raises and is '
+              'reflexive, symmetric and transitive, that a == b implies equivalent hashed tuples (hence equal hashes) and equal '
+              'hashability, and that x in S is S == x.space -- for the code with two recorded one-line repairs; for the CURRENT code '
+              'the same statements are refuted by witnesses (IntervalProd of different ndim compare equal by broadcasting or raise; '
+              'array weightings of two classes are equal with different hashes). The hashed tuples are regenerated from the '
+              '__hash__ sources on every run and proved to be the model keys for every object. For astype / real / complex '
+              'counterparts and product-space indexing it proves, for all trees, that shapes/partitions, dtype, leaf weightings '
+              '(when passed on) are those of the source, that Python slice positions are always valid indices and that '
+              'pspace[slice]/pspace[int] are exactly the selected components; loss of product weightings / integer-target '
+              'weightings in the current code is refuted by witnesses. element(), element indexing vs arrays, byaxis are '
+              'validated (probes + correspondence), not proved.')
+LEVEL_NOTE = ('Trusted: the hand transcription of __eq__/__contains__/astype/__getitem__ (tied by the in-Coq correspondence on '
+              '~1300 quick / ~7700 thorough structured cases incl. raise outcomes), the fail-closed AST reader of the __hash__ '
+              'tuples, descriptor build/describe in the harness; real-number idealisation of floats (NaN, signed-zero bytes out '
+              'of scope; the grid hashes bytes after + 0.0). Axioms: classical reals + funext as printed. 11 open findings are '
+              'recorded in findings/C20.json; 7 have proposed diffs under which the check passes with the repaired variants.')
+TECHNIQUE = ('Coq proof by structural induction over a nested deep embedding of sets/spaces (three-valued equality outcome), '
+             'source-regenerated hash and dtype tables, in-Coq differential correspondence with measured variant switches')
